@@ -1184,16 +1184,328 @@ def syn_tags(case: dict) -> list:
             f"syn-opt-{sh['opt']}", f"syn-lr-{sh['lr']}", f"syn-{'multi' if sh['multi'] else 'single'}"] + extra
 
 
+# ------------------------------------------------------------------------------ OptimizerWrapper (wrappers.py)
+# Suite `optimizer-wrapper`: the class the wiring model abstracts as `rebuildOpt`, now inside the model
+# (Model/Coherence.lean `wrapInit` / `inferNames` / `inferLr` / `wrapLoad`; Gen/OptWrapGen.lean generated from
+# wrappers.py, Proofs/OptWrapGenEq.lean).  Real wrappers are built (a) directly, inside the `__init__` of a bare holder
+# object, for every shape: one module / list of 1-3 modules / multi-agent list of 1-3 modules x names passed or
+# inferred x aliased attributes x several lr attributes (distinct float objects of equal or different value), and (b) by
+# the constructors of all eleven algorithms and of the synthetic ones, then re-created by `Mutations.reinit_opt` after
+# the lr attribute was replaced.  `wrap_model` below is the model's `wrapInit` written out on Python ids (exact oracle);
+# the property oracle is the statement: the parameter objects of the param groups ARE the registered networks'
+# parameters, group by group, in order, every group's lr is the lr passed, the lr name names the attribute holding
+# that very object, `load_state_dict(state_dict())` changes neither.
+
+def wrap_model(multi, nets, is_list, list_id, lr_id, names, lr_name, container):
+    """Coherence.wrapInit on ids: nets = [(id, [param ids])], container = [(name, id of value)] in attribute order.
+    -> None (raises) | dict(names, lr_name, opts=[[group param ids] per optimizer])"""
+    if names is None:
+        ms = [n for n, v in container if v == lr_id]
+        if not ms:
+            return None
+        if len(ms) == 1:
+            lr_name = ms[0]
+        else:
+            lrish = [m for m in ms if "lr" in m.lower() or "learning_rate" in m.lower()]
+            if not lrish:
+                return None
+            lr_name = lrish[0]
+        if multi:
+            names = [n for n, v in container if v == (list_id if is_list else 0)]
+        else:
+            ids = [i for i, _ in nets]
+            names = [n for n, v in container if v in ids]
+    elif lr_name is None:
+        return None
+    if not names:
+        return None
+    if multi:
+        if not nets:
+            return None
+        opts = [[ps] for _, ps in nets]
+    elif len(nets) > 1 and len(names) > 1:
+        if len(nets) != len(names):
+            return None
+        opts = [[ps for _, ps in nets]]
+    else:
+        if not nets:
+            return None
+        opts = [[nets[0][1]]]
+    return {"names": list(names), "lr_name": lr_name, "opts": opts}
+
+
+def wrapper_view(w):
+    """what the property talks about, of a live wrapper"""
+    opts = w.optimizer if isinstance(w.optimizer, list) else [w.optimizer]
+    return {"names": list(w.network_names), "lr_name": w.lr_name,
+            "opts": [[[id(p) for p in g["params"]] for g in o.param_groups] for o in opts],
+            "lrs": [[g["lr"] for g in o.param_groups] for o in opts], "is_list": isinstance(w.optimizer, list)}
+
+
+def direct_case(spec: dict):
+    """build one wrapper inside a holder's __init__ (the library reads the caller's `self` from the stack)"""
+    import torch.nn as nn
+    import torch.optim as optim
+    from agilerl.algorithms.core.wrappers import OptimizerWrapper
+    seed_all(spec["seed"])
+    out = {}
+
+    class Holder:
+        def __init__(self):
+            lr_objs = [float(v) for v in spec["lrs"]]            # distinct float objects, values may coincide
+            mods = [nn.Linear(2, 1 + (k % 2), bias=bool(k % 3)) for k in range(spec["n"])]
+            self.gamma = lr_objs[0] if spec.get("lr_shadow") else 0.99
+            for k, v in enumerate(lr_objs):
+                setattr(self, spec["lr_attrs"][k], v)
+            if spec["shape"] == "one":
+                self.net = mods[0]
+                arg = self.net
+                if spec.get("alias"):
+                    self.net_alias = mods[0]
+            else:
+                if spec["multi"]:
+                    self.nets = mods
+                    arg = self.nets
+                    if spec.get("alias"):
+                        self.nets_alias = mods
+                else:
+                    for k, m in enumerate(mods):
+                        setattr(self, f"net_{k}", m)
+                    arg = list(mods)
+            lr = lr_objs[spec["lr_pick"]]
+            kw = {"optimizer_kwargs": {"eps": 1e-6}} if spec.get("kwargs") else {}
+            if spec["given"] is not None:
+                kw.update(network_names=list(spec["given"][0]), lr_name=spec["given"][1])
+            out["mods"], out["arg_is_list"], out["lr"], out["arg"] = mods, isinstance(arg, list), lr, arg
+            out["container"] = [(k, id(v)) for k, v in vars(self).items()]
+            try:
+                self.opt = OptimizerWrapper(optim.Adam, networks=arg, lr=lr, multiagent=spec["multi"], **kw)
+                out["w"] = self.opt
+            except (AssertionError, AttributeError, IndexError, TypeError, ValueError) as e:
+                out["err"] = type(e).__name__
+    Holder()
+    return out
+
+
+def check_direct(spec: dict, problems: list):
+    r = direct_case(spec)
+    mods = r["mods"] if (spec["shape"] != "one") else r["mods"][:1]
+    nets = [(id(m), [id(p) for p in m.parameters()]) for m in mods]
+    given = spec["given"]
+    model = wrap_model(spec["multi"], nets, r["arg_is_list"], id(r["arg"]), id(r["lr"]),
+                       None if given is None else given[0], None if given is None else given[1], r["container"])
+    tag = json.dumps({k: v for k, v in spec.items() if k != "seed"}, separators=(",", ":"))
+    if "err" in r or model is None:
+        if ("err" in r) != (model is None):
+            problems.append(f"wrapper {tag}: constructor {'raised ' + r['err'] if 'err' in r else 'succeeded'} but the model "
+                            f"{'rejects' if model is None else 'accepts'} the call")
+        return "reject"
+    v = wrapper_view(r["w"])
+    if v["names"] != model["names"] or v["lr_name"] != model["lr_name"] or v["opts"] != model["opts"]:
+        problems.append(f"wrapper {tag}: implementation names={v['names']} lr_name={v['lr_name']} groups(sizes)="
+                        f"{[[len(g) for g in o] for o in v['opts']]} but the model gives names={model['names']} "
+                        f"lr_name={model['lr_name']} groups(sizes)={[[len(g) for g in o] for o in model['opts']]}")
+    # ---- property oracle (the statement; the degenerate list-with-one-name call is outside it: C02_wrapper_drops_networks_witness)
+    degenerate = (not spec["multi"]) and len(nets) > 1 and len(v["names"]) <= 1
+    flat = [g for o in v["opts"] for g in o]
+    if not degenerate and flat != [ps for _, ps in nets]:
+        problems.append(f"wrapper {tag}: the param groups do not hold exactly the parameters of the networks passed, in order")
+    if any(x != r["lr"] for o in v["lrs"] for x in o):
+        problems.append(f"wrapper {tag}: a param group trains with lr {v['lrs']} instead of the lr passed {r['lr']}")
+    if spec["multi"] != v["is_list"]:
+        problems.append(f"wrapper {tag}: multiagent={spec['multi']} but optimizer is {'a list' if v['is_list'] else 'single'}")
+    if given is None:
+        holders = [n for n, i in r["container"] if i == id(r["lr"])]
+        if len(holders) == 1 and v["lr_name"] != holders[0]:
+            problems.append(f"wrapper {tag}: lr_name inferred as {v['lr_name']!r} but the object passed is held by {holders[0]!r} only")
+    # ---- state_dict / load_state_dict
+    w = r["w"]
+    sd = w.state_dict()
+    if isinstance(sd, list) != spec["multi"]:
+        problems.append(f"wrapper {tag}: state_dict() is {'a list' if isinstance(sd, list) else 'a dict'}")
+    import copy
+    sd2 = copy.deepcopy(sd)
+    for d in (sd2 if isinstance(sd2, list) else [sd2]):
+        for g in d["param_groups"]:
+            g["lr"] = 0.015625
+    w.load_state_dict(sd2)
+    v2 = wrapper_view(w)
+    if v2["opts"] != v["opts"]:
+        problems.append(f"wrapper {tag}: load_state_dict changed the parameter objects of the groups")
+    if any(x != 0.015625 for o in v2["lrs"] for x in o):
+        problems.append(f"wrapper {tag}: load_state_dict did not take the saved group lr")
+    w.load_state_dict(sd)
+    v3 = wrapper_view(w)
+    if v3["opts"] != v["opts"] or v3["lrs"] != v["lrs"]:
+        problems.append(f"wrapper {tag}: load_state_dict(state_dict()) is not the identity on groups / lrs")
+    return "multi" if spec["multi"] else ("joint" if len(flat) > 1 else "single")
+
+
+def direct_specs(rng: random.Random, quick: bool):
+    specs = []
+    for shape, multi in (("one", False), ("many", False), ("many", True), ("one", True)):
+        for n in ((1,) if shape == "one" else (1, 2, 3)):
+            for given in (None, "right", "no-lr", "empty", "short"):
+                if shape == "one" and multi and given is None:
+                    pass                        # a module with multiagent=True: no attribute holds the fresh list -> rejected
+                names = (["net"] if shape == "one" else (["nets"] if multi else [f"net_{k}" for k in range(n)]))
+                g = None
+                if given == "right":
+                    g = (names, "lr_b")
+                elif given == "no-lr":
+                    g = (names, None)
+                elif given == "empty":
+                    g = ([], "lr_b")
+                elif given == "short":
+                    if multi or n < 2:
+                        continue
+                    g = (names[:1], "lr_b")
+                for lrs, attrs, pick, shadow in ((["0.001", "0.002"], ["lr_a", "lr_b"], 1, False),
+                                                 (["0.001", "0.001"], ["lr_a", "lr_b"], 1, False),
+                                                 (["0.001", "0.002"], ["alpha", "lr_b"], 1, True),
+                                                 (["0.001"], ["step_size"], 0, False)):
+                    if g is not None and g[1] is not None:
+                        g = (g[0], attrs[pick])
+                    specs.append({"shape": shape, "multi": multi, "n": n, "given": g, "lrs": lrs, "lr_attrs": attrs,
+                                  "lr_pick": pick, "lr_shadow": shadow, "alias": False, "kwargs": False})
+    for sp in list(specs):
+        if sp["given"] is None and rng.random() < 0.5:
+            specs.append(dict(sp, alias=True))
+        if rng.random() < 0.25:
+            specs.append(dict(sp, kwargs=True))
+    if quick:
+        rng.shuffle(specs)
+        keep = [s for s in specs if s["given"] is None or s["given"][1] is not None and s["given"][0]][:70]
+        specs = keep + [s for s in specs if s not in keep][:25]
+    for k, sp in enumerate(specs):
+        sp["seed"] = 1000 + k
+    return specs
+
+
+def check_agent_wrappers(agent, where: str, problems: list) -> int:
+    """every registered optimizer of a live agent against the statement and the registry"""
+    n = 0
+    for oc in agent.registry.optimizers:
+        w = getattr(agent, oc.name)
+        if not hasattr(w, "network_names"):
+            continue
+        n += 1
+        v = wrapper_view(w)
+        if list(oc.networks) != v["names"] or oc.lr != v["lr_name"]:
+            problems.append(f"{where}: {oc.name}: registry says networks={oc.networks} lr={oc.lr}, wrapper says "
+                            f"{v['names']} / {v['lr_name']}")
+        objs = [getattr(agent, nm) for nm in v["names"]]
+        if w.multiagent:
+            mods = [m for o in objs[:1] for m in (o if isinstance(o, list) else [o])]
+            want = [[[id(p) for p in m.parameters()]] for m in mods]
+        elif len(objs) > 1:
+            want = [[[id(p) for p in m.parameters()] for m in objs]]
+        else:
+            want = [[[id(p) for p in objs[0].parameters()]]]
+        if v["opts"] != want:
+            problems.append(f"{where}: {oc.name} does not hold exactly the current parameters of {v['names']}, optimizer by "
+                            f"optimizer and group by group (sizes {[[len(g) for g in o] for o in v['opts']]} vs "
+                            f"{[[len(g) for g in o] for o in want]})")
+        cur = getattr(agent, v["lr_name"])
+        if any(x != cur for o in v["lrs"] for x in o):
+            problems.append(f"{where}: {oc.name} trains with lr {v['lrs']} but {v['lr_name']}={cur}")
+        holders = [k for k, val in vars(agent).items() if val is w.lr]
+        if len(holders) == 1 and holders[0] != v["lr_name"]:
+            problems.append(f"{where}: {oc.name}: lr_name={v['lr_name']!r} but the lr object is held by {holders[0]!r}")
+        model = wrap_model(bool(w.multiagent),
+                           [(id(m), [id(p) for p in m.parameters()]) for m in
+                            ((objs[0] if isinstance(objs[0], list) else [objs[0]]) if (w.multiagent or len(objs) == 1) else objs)],
+                           True, 0, 0, v["names"], v["lr_name"], [])
+        if model is None or model["opts"] != v["opts"]:
+            problems.append(f"{where}: {oc.name}: the model's wrapInit gives groups "
+                            f"{None if model is None else [[len(g) for g in o] for o in model['opts']]}, the implementation "
+                            f"{[[len(g) for g in o] for o in v['opts']]}")
+    return n
+
+
+def wrapper_agent_case(case: dict, problems: list) -> int:
+    """constructor of a real / synthetic agent, then lr attributes replaced + `Mutations.reinit_opt`"""
+    from agilerl.hpo.mutation import Mutations
+    seed_all(case["seed"])
+    agent = build_population(dict(case, size=1))[0]
+    head = f"{case['algo']}{'/' + json.dumps(case['shape'], separators=(',', ':')) if case.get('shape') else ''}"
+    n = check_agent_wrappers(agent, head + " after __init__", problems)
+    m = Mutations(no_mutation=1, architecture=0, new_layer_prob=0.5, parameters=0, activation=0, rl_hp=0, mutation_sd=0.1,
+                  rand_seed=case["seed"], device="cpu")
+    before = {oc.name: wrapper_view(getattr(agent, oc.name)) for oc in agent.registry.optimizers
+              if hasattr(getattr(agent, oc.name), "network_names")}
+    for k, name in enumerate(sorted({oc.lr for oc in agent.registry.optimizers})):
+        setattr(agent, name, float(2.0 ** -(9 + k)))
+    m.reinit_opt(agent)
+    n += check_agent_wrappers(agent, head + " after reinit_opt", problems)
+    for oc in agent.registry.optimizers:
+        if oc.name in before:
+            v = wrapper_view(getattr(agent, oc.name))
+            if v["names"] != before[oc.name]["names"] or v["lr_name"] != before[oc.name]["lr_name"] \
+                    or v["is_list"] != before[oc.name]["is_list"]:
+                problems.append(f"{head}: reinit_opt changed names / lr name / list-ness of {oc.name}")
+    return n
+
+
+def wrapper_suite(chk: Check) -> None:
+    import agents as A
+    quick = chk.tier != "thorough"
+    cases = diffs = 0
+    for spec in direct_specs(chk.rng, quick):
+        problems: list = []
+        kind = check_direct(spec, problems)
+        cases += 1
+        chk.case(["wrapper", {k: v for k, v in spec.items() if k != "seed"}], nontrivial=kind != "reject",
+                 sample=None, tags=[f"wrapper-{kind}", "wrapper-names-" + ("inferred" if spec["given"] is None else "given")])
+        if problems:
+            diffs += 1
+            chk.violation(problems[0], {"kind": "wrapper-direct", "spec": spec, "problems": problems[:6],
+                                        "script": "c02.check_direct(spec, problems:=[])",
+                                        "correspondence": "harness/c02.py wrap_model = Coherence.wrapInit", "theorems": chk.gate["theorems"]})
+    algo_cases = [{"algo": a, "family": "vector", "share": None, "seed": 40 + k} for k, a in enumerate(A.ALGOS)
+                  if baseline_ok(chk, a, "vector")]
+    shapes = syn_shapes()
+    if quick:
+        shapes = chk.rng.sample(shapes, 8)
+    algo_cases += [{"algo": SYN, "family": "vector", "share": None, "seed": 70 + k, "shape": sh} for k, sh in enumerate(shapes)]
+    for case in algo_cases:
+        problems = []
+        try:
+            n = wrapper_agent_case(case, problems)
+        except InfraError:
+            raise
+        cases += 1
+        chk.case(["wrapper-agent", case["algo"], case.get("shape")], nontrivial=n > 0, tags=[f"wrapper-agent-{case['algo']}"])
+        if problems:
+            diffs += 1
+            chk.violation(problems[0], {"kind": "wrapper-agent", "case": case, "problems": problems[:6],
+                                        "script": "c02.wrapper_agent_case(case, problems:=[])",
+                                        "correspondence": "harness/c02.py wrap_model = Coherence.wrapInit", "theorems": chk.gate["theorems"]})
+    chk.suite("optimizer-wrapper", cases, diffs)
+
+
+
 def pre_gate(chk: Check) -> None:
     """Regenerate lean/Gen/MutWireGen.lean from the source text of agilerl/hpo/mutation.py of the tree under test (before
     the Lean gate) and re-check `generated wiring = model wiring` (Proofs/MutWireGenEq.lean) and the theorems over the
     generated wiring (Props/C02.lean, `C02_source_translation_*`)."""
     import common
     import py2lean_mutwire
+    import py2lean_optwrap
+    # Props.C02 imports BOTH generated files: write both from the tree under test before either gate builds it
+    for tr, rel in ((py2lean_mutwire, "Gen/MutWireGen.lean"), (py2lean_optwrap, "Gen/OptWrapGen.lean")):
+        try:
+            tr.write_if_changed(tr.translate(common.REPO)[0], common.LEAN_DIR / rel)
+        except tr.Unsupported:
+            pass                         # reported by the gate below
     common.translation_gate(chk, py2lean_mutwire, "Gen/MutWireGen.lean", ["Gen.MutWireGen", "Proofs.MutWireGenEq", "Props.C02"],
                             "the wiring of Mutations.mutation and the five mutation options: which registry groups are walked for "
                             "target re-creation, which optimizers are re-created and with which learning rate, what is loaded into a "
                             "re-created network, which method and arguments the other evaluation networks receive")
+    common.translation_gate(chk, py2lean_optwrap, "Gen/OptWrapGen.lean", ["Gen.OptWrapGen", "Proofs.OptWrapGenEq", "Props.C02"],
+                            "the constructor of OptimizerWrapper: one optimizer / one group per network / one optimizer per sub-agent, "
+                            "which parameters and which lr every group gets, the inference of network_names and lr_name by identity, "
+                            "state_dict / load_state_dict")
 
 
 def run(chk: Check) -> None:
@@ -1226,8 +1538,10 @@ def run(chk: Check) -> None:
             ndiff += res["diff"] is not None
             report(chk, case, res)
     chk.suite("mutation-histories", len(cases), ndiff)
+    wrapper_suite(chk)
     if chk.tier == "thorough":
         selftest(chk)
+        selftest_wrapper(chk)
 
 
 # ------------------------------------------------------------------------------ self-test
@@ -1353,9 +1667,45 @@ def selftest(chk: Check) -> None:
         Mutations._apply_arch_mutation = o_apply
 
 
+def selftest_wrapper(chk: Check) -> None:
+    """seeded faults in wrappers.py that break the property must be noticed by the optimizer-wrapper suite"""
+    import agilerl.algorithms.core.wrappers as W
+    spec = {"shape": "many", "multi": False, "n": 3, "given": None, "lrs": ["0.001", "0.002"], "lr_attrs": ["lr_a", "lr_b"],
+            "lr_pick": 1, "lr_shadow": False, "alias": False, "kwargs": False, "seed": 5}
+    o_multi, o_single = W.init_from_multiple, W.init_from_single
+    W.init_from_multiple = lambda networks, cls, lr, kw: o_multi(networks[:-1], cls, lr, kw)
+    try:
+        problems: list = []
+        check_direct(spec, problems)
+        if not any("do not hold exactly" in p for p in problems):
+            raise InfraError("C02 self-test: 'last network dropped by init_from_multiple' was not noticed")
+    finally:
+        W.init_from_multiple = o_multi
+    W.init_from_single = lambda network, cls, lr, kw: o_single(network, cls, lr * 2, kw)
+    try:
+        problems = []
+        check_direct(dict(spec, shape="one", n=1), problems)
+        if not any("instead of the lr passed" in p for p in problems):
+            raise InfraError("C02 self-test: 'init_from_single doubles the lr' was not noticed")
+    finally:
+        W.init_from_single = o_single
+    chk.notes.append("self-test: optimizer-wrapper suite detects a dropped network and a changed lr")
+
+
 def replay(chk: Check, path: str) -> int:
     c = json.loads(open(path).read())
     c = c.get("replay", c)
+    if c.get("kind") in ("wrapper-direct", "wrapper-agent"):
+        problems: list = []
+        if c["kind"] == "wrapper-direct":
+            check_direct(c["spec"], problems)
+        else:
+            wrapper_agent_case(c["case"], problems)
+        print(json.dumps({"kind": c["kind"], "input": c.get("spec") or c.get("case"), "oracle_problems": problems}, indent=1, default=str))
+        if problems:
+            print(f"VIOLATION property=C02 replay={path}")
+            return 1
+        return 0
     case = {k: c[k] for k in ("algo", "family", "share", "seed", "size", "ops", "hps", "shape", "deep", "indices") if k in c}
     case.setdefault("share", None)
     res = run_history(chk, case)
